@@ -124,12 +124,13 @@ func shape(method, path string, stmt string) (q url.Values, body []byte, hdrs ma
 
 // need is the specification's side: what the property demands of a caller before a route may
 // act. It is written from the property text, not from the code:
-//   "public"  liveness/status endpoints and CORS pre-flight: answer anonymously
-//   "user"    any authenticated user (server-wide monitoring data, inert endpoints)
-//   "read"    reads data of the target database
-//   "write"   writes data into the target database
-//   "admin"   changes the catalogue or controls the server
-//   "query"   /query: decided per statement by its required privileges
+//
+//	"public"  liveness/status endpoints and CORS pre-flight: answer anonymously
+//	"user"    any authenticated user (server-wide monitoring data, inert endpoints)
+//	"read"    reads data of the target database
+//	"write"   writes data into the target database
+//	"admin"   changes the catalogue or controls the server
+//	"query"   /query: decided per statement by its required privileges
 func need(method, pattern string) string {
 	if method == "OPTIONS" {
 		return "public"
